@@ -125,7 +125,19 @@ def chain_case(rnd, vd, kind, nsteps=None, all_gridders=False):
         for name, est, is_g in steps:
             cl = clone(est)
             out = cl.filter(*args)
-            t = {"g": is_g, "fdata": comps(out[1])}
+            same = True
+            if is_g:
+                w_in = args[2] if len(args) > 2 else None
+                w_out = out[2] if len(out) > 2 else None
+                tup = lambda x: x if isinstance(x, tuple) else (x,)
+                same = (len(out[0]) == len(args[0])
+                        and all(np.shape(a) == np.shape(b) and np.array_equal(a, b) for a, b in zip(out[0], args[0]))
+                        and ((w_out is None and w_in is None) or
+                             (w_out is not None and w_in is not None and len(tup(w_out)) == len(tup(w_in)) and
+                              all((a is None and b is None) or (a is not None and b is not None and np.array_equal(a, b))
+                                  for a, b in zip(tup(w_out), tup(w_in)))))
+                        and [np.shape(x) for x in tup(out[1])] == [np.shape(x) for x in tup(args[1])])
+            t = {"g": is_g, "fdata": comps(out[1]), "same": bool(same)}
             if is_g:
                 t["pq"] = comps(cl.predict(q))
                 t["pc"] = comps(cl.predict(args[0]))
@@ -143,8 +155,8 @@ def chain_case(rnd, vd, kind, nsteps=None, all_gridders=False):
             t["rq"] = comps(est.predict(q)) if is_g else []
         allg = all(s[2] for s in steps)
         obs_c = comps(chain.predict(coords)) if (allg and obs_q is not None) else []
-    csteps = clist(["{| so_gridder := %s; so_pq := %s; so_pc := %s; so_fdata := %s; so_rq := %s |}" % (
-        cbool(t["g"]), cc(t["pq"]), cc(t["pc"]), cc(t["fdata"]), cc(t["rq"])) for t in tables])
+    csteps = clist(["{| so_gridder := %s; so_pq := %s; so_pc := %s; so_fdata := %s; so_rq := %s; so_same_cw := %s |}" % (
+        cbool(t["g"]), cc(t["pq"]), cc(t["pc"]), cc(t["fdata"]), cc(t["rq"]), cbool(t["same"])) for t in tables])
     cobs = "None" if obs_q is None else "(Some %s)" % cc(obs_q)
     term = "c06_chain %s %s %s %s" % (cc(comps(data)), csteps, cobs, cc(obs_c))
     return Case({"steps": names, "n_points": len(coords[0]), "components": ncomp, "weighted": weighted},
@@ -221,15 +233,15 @@ def generate(tier, seed):
     n = 1 if tier == "quick" else 8
     cases = []
     for i in range(40 * n):
-        cases.append(chain_case(rnd, vd, "chain-mixed"))
+        cases.append(core.guarded(lambda: chain_case(rnd, vd, "chain-mixed"), {"fn": "chain_case"}, "chain_case"))
     for i in range(25 * n):
-        cases.append(chain_case(rnd, vd, "chain-gridders", nsteps=rnd.randint(2, 4), all_gridders=True))
+        cases.append(core.guarded(lambda: chain_case(rnd, vd, "chain-gridders", nsteps=rnd.randint(2, 4), all_gridders=True), {"fn": "chain_case"}, "chain_case"))
     for i in range(20 * n):
-        cases.append(filter_case(rnd, vd, "filter"))
+        cases.append(core.guarded(lambda: filter_case(rnd, vd, "filter"), {"fn": "filter_case"}, "filter_case"))
     for i in range(20 * n):
-        cases.append(vector_case(rnd, vd, "vector"))
+        cases.append(core.guarded(lambda: vector_case(rnd, vd, "vector"), {"fn": "vector_case"}, "vector_case"))
     for i in range(12 * n):
-        cases.append(refit_case(rnd, vd, "refit"))
+        cases.append(core.guarded(lambda: refit_case(rnd, vd, "refit"), {"fn": "refit_case"}, "refit_case"))
     return cases
 
 
